@@ -232,6 +232,16 @@ def families(seed, tier):
              op("dial"), await_("X", "up"), await_("Y", "up"), op("settle", quiet=200, ms=2000),
              op("stall", ep="X", cls="proto", on=True), open_("Y"), op("pump", ep="Y", ms=300), val("X", ("accept", "reject")[i % 4 == 3], wait=0),
              op("stall", ep="X", cls="proto", on=False), op("pump", ms=600)])
+    # the remote ends the stream; the per-stream Connection task tells the protocol (shutdown notice) and then the user
+    # (Closed); the user re-opens at once while the protocol loop has not run in between (its task class is held): the
+    # loop then finds the notice and the open command together and must take the notice first (seeded C11g: the notice
+    # arm demoted below the command arm of the biased select - the open meets a stale Open state and is dropped)
+    for i in range(4 if tier == "quick" else 24):
+        d, o = ("X", "Y") if i % 2 == 0 else ("Y", "X")
+        add("reopen-at-once-after-remote-close", cfg(0, perturb=i % 3),
+            [policy("X", "accept"), policy("Y", "accept"), open_(d), await_("X", "open"), await_("Y", "open"), op("settle", quiet=150, ms=1500),
+             op("stall", ep=d, cls="proto", on=True), close_(o), await_(d, "closed", p=o, ms=4000), open_(d),
+             op("stall", ep=d, cls="proto", on=False), op("pump", ms=800)])
     # the remote answers Accept after the opener's 10 s timeout; the opener retries while the leftover substream of that
     # late accept is being read: the retry is silently dropped
     nlate = 4 if tier == "quick" else 24
